@@ -285,7 +285,7 @@ def run_tasks(fn, args, jobs, task_timeout, _retry=True):
                 del running[i]
     if _retry:
         # a worker that vanished without a result (killed by the OS, lost pipe) is run once more before it is reported
-        again = [i for i, r in enumerate(results) if r and str(r.get("error") or "").startswith("worker process died")]
+        again = [i for i, r in enumerate(results) if isinstance(r, dict) and str(r.get("error") or "").startswith("worker process died")]
         if again:
             for i, r in zip(again, run_tasks(fn, [args[i] for i in again], max(1, jobs // 2), task_timeout, _retry=False)):
                 results[i] = r
